@@ -74,7 +74,8 @@ func simNorm(cs *compState) {
 		case 1, 2:
 			return "?" + wellFormedQueries[cs.Draw(len(wellFormedQueries))], true
 		default:
-			return pick("?", "?k", "?k&j", "?a=1&&b=2", "?a=%zz", "?x=1;y=2", "?=v", "?a==b", "?u=http://x.example/?z=1&w=2", "?q=café"), false
+			return pick("?", "?k", "?k&j", "?a=1&&b=2", "?a=%zz", "?x=1;y=2", "?=v", "?a==b", "?u=http://x.example/?z=1&w=2", "?q=café",
+				"?a=1&b=%zz&c=3&a=2", "?%zz=1&k=v&k=w", "?a=1&b=%&c=3", "?p=1&q=%g1&r=3&p=4&s=5"), false
 		}
 	}
 	nChecked, nAccepted, nMulti := 0, 0, 0
@@ -162,6 +163,52 @@ func simNorm(cs *compState) {
 				if want.Path != cu.Path || want.Host != cu.Host {
 					k.Violate("C09", "resolution", "relative-reference-misresolved", fmt.Sprintf("reference %q against %q: expected path %q on %q, got %q", text, parent.Raw, want.Path, want.Host, base.canon))
 				}
+			}
+		}
+		// D'. a malformed pair costs only itself: the well-formed pairs around it keep their order and multiplicity
+		if i := strings.IndexByte(text, '?'); i >= 0 && wfQuery == "" && strings.Contains(text[i:], "&") && strings.Contains(text[i:], "%") {
+			q := strings.Trim(text[i+1:], `"'`)
+			if j := strings.IndexByte(q, '#'); j >= 0 {
+				q = q[:j]
+			}
+			var wantWF [][2]string
+			for _, seg := range strings.Split(q, "&") {
+				if ps, ok := decodePairs(seg); ok && len(ps) == 1 && seg != "" {
+					wantWF = append(wantWF, ps[0])
+				}
+			}
+			gotSegs := strings.Split(cu.RawQuery, "&")
+			j := 0
+			for _, seg := range gotSegs {
+				if ps, ok := decodePairs(seg); ok && len(ps) == 1 && j < len(wantWF) && ps[0] == wantWF[j] {
+					j++
+				}
+			}
+			if len(wantWF) >= 2 {
+				nMulti++
+				if j < len(wantWF) {
+					k.Violate("C09", "query-order", "well-formed-parameters-lost", fmt.Sprintf("text %q: the well-formed parameters %v do not all survive, in order, in %q", text, wantWF, base.canon))
+				}
+			}
+		}
+		// F. the same text normalised on an object that was parsed before (as the queue consumers do), and normalised twice
+		{
+			goruntime.SimSetBias(2)
+			u := &models.URL{Raw: text}
+			_ = u.Parse()
+			var p2 *models.URL
+			if parent != nil {
+				p2 = &models.URL{Raw: parent.Raw}
+				p2.Parse()
+			}
+			if err := preprocessor.NormalizeURL(u, p2); err == nil {
+				if u.String() != base.canon {
+					k.Violate("C09", "deterministic", "result-depends-on-object-history", fmt.Sprintf("text %q: %q when the object had been parsed before normalisation, %q on a fresh object", text, u.String(), base.canon))
+				} else if err := preprocessor.NormalizeURL(u, p2); err != nil || u.String() != base.canon {
+					k.Violate("C09", "idempotent", "second-normalisation-differs", fmt.Sprintf("text %q: normalising the same object again gives %q (%v), first %q", text, u.String(), err, base.canon))
+				}
+			} else {
+				k.Violate("C09", "deterministic", "result-depends-on-object-history", fmt.Sprintf("text %q accepted on a fresh object (%q) but rejected (%v) when the object had been parsed before", text, base.canon, err))
 			}
 		}
 		// D. order and multiplicity of well-formed query parameters
